@@ -18,14 +18,14 @@ theorem sparse_keeps_tree (wc : WC) (disk : Disk) (pats : List Path) :
     (setSparsePatterns wc disk pats).1.tree = wc.tree ∧ (setSparsePatterns wc disk pats).1.sparse = pats :=
   ⟨rfl, rfl⟩
 
-theorem get_nil' (p : Path) : get ([] : Tree) p = none := rfl
+theorem get_emptyTree (p : Path) : get ([] : Tree) p = none := rfl
 
 /-- the entries of the first `update` are exactly the tree paths entering the patterns, as additions -/
 theorem added_entries (wc : WC) (pats : List Path) (e : DiffEntry) :
     e ∈ diffFs [] wc.tree (enters wc pats) ↔
       ∃ v, get wc.tree e.path = some v ∧ enters wc pats e.path = true ∧ e.before = none ∧ e.after = some v := by
   rw [mem_diffFs]
-  simp only [get_nil', List.map_nil, List.not_mem_nil, false_or]
+  simp only [get_emptyTree, List.map_nil, List.not_mem_nil, false_or]
   constructor
   · rintro ⟨_, hm, hne, hb, ha⟩
     cases hv : get wc.tree e.path with
@@ -39,7 +39,7 @@ theorem removed_entries (wc : WC) (pats : List Path) (e : DiffEntry) :
     e ∈ diffFs wc.tree [] (leaves wc pats) ↔
       ∃ v, get wc.tree e.path = some v ∧ leaves wc pats e.path = true ∧ e.before = some v ∧ e.after = none := by
   rw [mem_diffFs]
-  simp only [get_nil', List.map_nil, List.not_mem_nil, or_false]
+  simp only [get_emptyTree, List.map_nil, List.not_mem_nil, or_false]
   constructor
   · rintro ⟨_, hm, hne, hb, ha⟩
     cases hv : get wc.tree e.path with
